@@ -56,7 +56,7 @@ REQUIRED_MONITORS = [
     "ext_table_values", "ext_special_rows", "phi_values", "matrix_file_values", "table_file_values",
     "res_parameter_estimates", "res_ofv", "res_standard_errors", "res_names", "res_iterations",
     "res_individual_estimates", "res_cov_from_file", "res_relation_cor", "res_relation_coi", "res_relation_se",
-    "res_lst", "json_roundtrip", "multi_table_file", "repeated_header_file", "cor_file_stratum",
+    "res_lst", "json_roundtrip", "json_file_roundtrip", "multi_table_file", "repeated_header_file", "cor_file_stratum",
 ]
 BATCH_TIMEOUT = {"quick": 1500, "thorough": 6 * 3600}
 
@@ -638,6 +638,7 @@ def check_results(c, d, run, rng):
 
     # ---- JSON
     check_json(c, res)
+    check_json_files(c, res, d)
 
 
 def check_iterations(c, res, run, name_of, elems):
@@ -1060,6 +1061,41 @@ def check_predictions(c, d, res, run):
 
 
 # ------------------------------------------------------------------------------------------------ JSON
+def check_json_files(c, res, d):
+    """The file forms of the same round trip: to_json(path), to_json(path, lzma=True) (writes <path>.xz) and
+    read_results on the file, on the directory that holds results.json and on the compressed file must give what
+    read_results(to_json()) gives (which check_json judges against the object)."""
+    from pharmpy.workflows.results import read_results
+
+    try:
+        ref = read_results(res.to_json()).to_json()
+    except Exception:
+        return  # reported by check_json
+    sub = d / "jsonrt"
+    sub.mkdir(exist_ok=True)
+    forms = [("file", lambda: res.to_json(sub / "results.json"), sub / "results.json"),
+             ("directory", None, sub),
+             ("lzma file", lambda: res.to_json(sub / "res2.json", lzma=True), sub / "res2.json.xz")]
+    for what, writer, target in forms:
+        c.hit("json_file_roundtrip")
+        try:
+            if writer is not None:
+                writer()
+            back = read_results(target)
+        except Exception as e:
+            c.violate(None, f"JSON round trip through a {what} raised {type(e).__name__}: {str(e)[:150]}")
+            continue
+        try:
+            again = back.to_json()
+        except Exception as e:
+            c.violate(None, f"results read back from a {what} cannot be encoded again: {type(e).__name__}: {str(e)[:150]}")
+            continue
+        if again != ref:
+            k = next((i for i, (x, y) in enumerate(zip(again, ref)) if x != y), min(len(again), len(ref)))
+            c.violate(None, f"JSON round trip through a {what} differs from the round trip through a string near "
+                            f"{again[max(0, k - 40):k + 40]!r} vs {ref[max(0, k - 40):k + 40]!r}")
+
+
 def check_json(c, res):
     import numpy as np
     import pandas as pd
